@@ -362,3 +362,5 @@ func propOf(why []string) *PropRes {
 	}
 	return &PropRes{OK: false, Why: strings.Join(why, "; ")}
 }
+
+func withSafe(b bool) merklize.MerklizeOption { return merklize.WithSafeMode(b) }
